@@ -208,12 +208,18 @@ class Gen:
         c, xc = self.expr('I', d)
         args = [self.expr('I', d) for _ in range(self.rng.choice([1, 2, 3]))]
         v = self.value(c)
+        if not isinstance(v, int) or isinstance(v, bool):
+            raise Bad('switchCase on %r' % (v,))
         sel = v if 0 <= v < len(args) else len(args) - 1
         return '%s.switchCase(%s)' % (c, ', '.join(a[0] for a in args)), dict(
             k='switchCase', c=xc, sel=sel, **{'as': [a[1] for a in args]})
 
     def coalesce(self, d, last):
-        args = [self.expr('N', d) for _ in range(self.rng.choice([1, 2]))] + [self.expr(last, d)]
+        if last == 'I':     # keep the result an integer: the possibly-null operands are null or integers
+            args = [self.tick(self.rng.choice(['null', 'null', '4']), dict(k='leaf'))
+                    for _ in range(self.rng.choice([1, 2]))] + [self.expr(last, d)]
+        else:
+            args = [self.expr('N', d) for _ in range(self.rng.choice([1, 2]))] + [self.expr(last, d)]
         return 'coalesce(%s)' % ', '.join(a[0] for a in args), dict(
             k='coalesce', nulls=[self.value(a[0]) is None for a in args], **{'as': [a[1] for a in args]})
 
